@@ -4,6 +4,7 @@ Configuring and executing emulator instances for guppy programs.
 
 from __future__ import annotations
 
+import copy
 from collections.abc import Iterator
 from dataclasses import dataclass, field, replace
 from typing import TYPE_CHECKING, Any, cast
@@ -174,11 +175,12 @@ class EmulatorInstance:
     def with_seed(self, value: int | None) -> Self:
         """Set the random seed for the emulator instance.
         Defaults to None."""
-        new_options = replace(self._options, _seed=value)
         # TODO flaky stateful, remove when selene simplifies
-        new_options._simulator.random_seed = value
-        out = replace(self, _options=new_options)
-        return out
+        # The seed also has to be set on the simulator. Seed a copy, the simulator object
+        # is shared with the instance we are derived from (and its other descendants).
+        simulator = copy.copy(self._options._simulator)
+        simulator.random_seed = value
+        return self._with_option(_seed=value, _simulator=simulator)
 
     def with_shot_offset(self, value: int) -> Self:
         """Set the offset for the shot numbers, shot counts will begin at this offset.
